@@ -59,6 +59,11 @@ fn usage() -> ! {
 }
 
 fn main() {
+    // Writes beyond a simulated "disk full" limit (RLIMIT_FSIZE) fail with EFBIG instead of
+    // killing the process.
+    unsafe {
+        libc::signal(libc::SIGXFSZ, libc::SIG_IGN);
+    }
     let argv: Vec<String> = std::env::args().collect();
     if argv.len() < 2 {
         usage();
